@@ -33,6 +33,8 @@ Box(cid, lo, e, hi, grid, incF, incL) ==
    grid |-> grid, incF |-> incF, incL |-> incL, scale |-> One]
 Scaled(c, s) == [c EXCEPT !.scale = s]
 
+MethodDC(N, M, scheme, degree, grid) ==
+  [kind |-> "DC", N |-> N, M |-> M, intg |-> "", grid |-> grid, degree |-> degree, scheme |-> scheme]
 Method(kind, N, M, intg, grid) ==
   [kind |-> kind, N |-> N, M |-> M, intg |-> intg, grid |-> grid, degree |-> 0, scheme |-> ""]
 
@@ -43,7 +45,7 @@ Base == [t0 |-> Num(Zero), T |-> Num(One),
          method |-> Method("MS", 1, 1, "rk", Uniform)]
 
 (* parameter values: distinct small rationals, one per column *)
-PVals(i, n) == [c \in 1..n |-> Q(2 * i + c, 2)]
+PVals(i, n) == Tup([c \in 1..n |-> Q(2 * i + c, 2)])
 PCols(kind, N) == CASE kind = "g" -> 1 [] kind = "c" -> N [] kind = "cp" -> N + 1
 
 (***************************************************************************)
@@ -74,9 +76,14 @@ R7(N) == [Base EXCEPT !.states = <<S1>>, !.controls = <<Sym1>>, !.dyn = "next",
                       !.params = <<[kind |-> "g", val |-> PVals(1, 1)]>>,
                       !.rhs = <<Plus(Plus3(X(1), Times(DTs, U(1)), Times(DTc, P(1))), Tm)>>]
 
+\* R6:  x' = z u + t ,  0 = z - 2x - 1     (index-1 DAE, DirectCollocation only)
+R6(N) == [Base EXCEPT !.states = <<S1>>, !.controls = <<Sym1>>, !.algs = <<Sym1>>,
+                      !.rhs = <<Plus(Times(Z(1), U(1)), Tm)>>,
+                      !.alg = <<Minus(Minus(Z(1), Times(CI(2), X(1))), CI(1))>>]
+
 RhsIds == {"R1", "R2", "R3", "R4", "R5", "R7"}
 Rhs(id, N) == CASE id = "R1" -> R1(N) [] id = "R2" -> R2(N) [] id = "R3" -> R3(N)
-                [] id = "R4" -> R4(N) [] id = "R5" -> R5(N) [] id = "R7" -> R7(N)
+                [] id = "R4" -> R4(N) [] id = "R5" -> R5(N) [] id = "R7" -> R7(N) [] id = "R6" -> R6(N)
 
 (***************************************************************************)
 (* Path / boundary constraints (all well-formed for every rhs above:       *)
@@ -94,10 +101,12 @@ K9 == Con("k9", "le", Minus(U(1), Off(U(1), 1)), CI(2), "control", FALSE, TRUE)
 KA == Con("kA", "le", Minus(X(1), Off(X(1), -1)), CI(3), "control", TRUE, TRUE)
 KB == Con("kB", "ge", Plus(Off(X(1), 2), Off(U(1), -1)), CI(-9), "control", TRUE, TRUE)
 
+KR == Con("kR", "le", Times(X(1), Tm), CI(6), "roots", TRUE, TRUE)
+KS == Box("kS", CI(-8), Plus(X(1), U(1)), CI(8), "roots", TRUE, TRUE)
 ConIds == {"k1", "k2", "k3", "k4", "k5", "k6", "k7", "k8", "k9", "kA", "kB"}
 ConOf(id) == CASE id = "k1" -> K1 [] id = "k2" -> K2 [] id = "k3" -> K3 [] id = "k4" -> K4
                [] id = "k5" -> K5 [] id = "k6" -> K6 [] id = "k7" -> K7 [] id = "k8" -> K8
-               [] id = "k9" -> K9 [] id = "kA" -> KA [] id = "kB" -> KB
+               [] id = "k9" -> K9 [] id = "kA" -> KA [] id = "kB" -> KB [] id = "kR" -> KR [] id = "kS" -> KS
 
 (***************************************************************************)
 (* Objective terms.  Integrands live in d.quads and are referred to by     *)
